@@ -323,6 +323,11 @@ func (t *Task) removeFromQueues() {
 func (t *Task) runWithLocking() {
 	t.lock.Lock()
 
+	// remember a pending scheduled (not max delay) execution
+	scheduleLock.Lock()
+	scheduledOnly := t.scheduleListElement != nil && !t.overtime
+	scheduleLock.Unlock()
+
 	// we will not attempt execution, remove from queues
 	t.removeFromQueues()
 
@@ -333,6 +338,11 @@ func (t *Task) runWithLocking() {
 		// finished, as it has just been removed from the queues.
 		if t.submissions != t.runSubmissions {
 			t.runAgain = true
+		}
+		// If the task was scheduled for a later time while it is executing,
+		// keep that entry: it does not belong to the current execution.
+		if scheduledOnly && time.Until(t.executeAt) > 0 {
+			t.addToSchedule(false)
 		}
 		t.lock.Unlock()
 		return
